@@ -82,6 +82,8 @@ class RefSdoClient:
 
     def upload_segment(self):
         st = self.state
+        if st is None:
+            raise Nonconformance("transfer-ended-by-server", "the server had already ended the transfer (abort) when the next upload segment was due")
         t = st["toggle"]
         r = self.one(bytes([0x60 | t << 4, 0, 0, 0, 0, 0, 0, 0]), "upload segment")
         if self.is_abort(r):
@@ -157,6 +159,8 @@ class RefSdoClient:
 
     def download_segment(self, chunk, last, toggle=None):
         st = self.state
+        if st is None:
+            raise Nonconformance("transfer-ended-by-server", "the server had already ended the transfer (abort) when the next download segment was due")
         t = st["toggle"] if toggle is None else toggle
         n = 7 - len(chunk)
         req = bytes([t << 4 | n << 1 | (1 if last else 0)]) + bytes(chunk) + bytes(n)
